@@ -23,6 +23,10 @@ def run(ctx):
     ctx.trusted = ['rustc nightly MIR construction', 'roaring set algebra', 'heed/LMDB']
     ctx.assumptions = ['split_after >= 1']
     rules(ctx)
+    # the forest describes the *live* items only if every change to the item store is seen by the next build: the
+    # staleness protocol (C06 rule set) is a premise of "after every successful build" and is re-evaluated here
+    from props import C06
+    C06.rules(ctx)
 
 
 def rules(ctx):
